@@ -22,6 +22,7 @@
 (*   panic                      a Go panic inside the coordinator              *)
 (* Every successful update must (1) satisfy the record clauses of C18 and (2)  *)
 (* be exactly Mark(n), Add(n) or Finish(n) of ZCoord from the previous record  *)
+(* (or a pure reordering of RaftNodes = a leader move of the balance round)    *)
 (* with every guard of that action true in the scripted environment.  The      *)
 (* first rejected line of a segment prints <<"MISMATCH", line, names>> and the *)
 (* rest of the segment is skipped.                                             *)
@@ -60,7 +61,12 @@ StepBroken(p, nw) ==
       adds  == {n \in TraceNodes : /\ nw.nodes = Append(meta.nodes, n) /\ nw.rem = meta.rem
                                    /\ n \in DOMAIN nw.ids
                                    /\ \A x \in DOMAIN meta.ids : x # n => (x \in DOMAIN nw.ids /\ nw.ids[x] = meta.ids[x])}
+      \* a leader move of the balance round: the same record up to the order of RaftNodes (the
+      \* preferred leader is the first entry).  Order is irrelevant to every clause of C18.
+      reorder == /\ NodeSet(nw) = NodeSet(meta) /\ Len(nw.nodes) = Len(meta.nodes) /\ nw.nodes # meta.nodes
+                 /\ nw.ids = meta.ids /\ nw.rem = meta.rem /\ nw.maxid = meta.maxid
   IN IF nw.epoch <= meta.epoch THEN {"EpochNotAdvanced"}
+     ELSE IF reorder THEN {}
      ELSE IF marks # {} THEN
           UNION {MarkBroken(meta, n, EnvP(p))
                  \cup (IF ctxop \in {"check", "balance"}
